@@ -33,7 +33,9 @@ LEVEL_TEXT = ('seeded exploration of queue histories and of producer/consumer in
               'per-producer order follow from linearizability against a FIFO model).')
 LEVEL_NOTE = 'trusted: reference model, SQLite, simulator kernel'
 
-PREFIXES = [None, 'a', 'b', 'a-5', 'a-b', 'é', '', '5', 'a-b-c', 'a%', 'a_']
+PREFIXES = [None, 'a', 'b', 'a-5', 'a-b', 'é', '', '5', 'a-b-c', 'a%', 'a_',
+            # characters that mean something to LIKE, GLOB, string literals or C strings
+            'q[1]', 'q1', 'a*', 'a?', "it's", 'a"b', 'a]', 'a\\', 'a b', 'A', '\U0001F600', 'a' * 300]
 # ordinary keys outside the queue key ranges, including the range bounds themselves (the ranges are open intervals)
 ORDINARY = ['x', 'a', 'b-', -5, {'i': str(10 ** 15)}, {'b': b'a-500000000000000'.hex()}, 'a-', {'t': [1, 2]},
             0, 999999999999999, 'a-000000000000000', 'a-999999999999999', 'b-000000000000000']
